@@ -380,7 +380,7 @@ def check_legality_matrix(ctx):
     while True:
         kind = norm(st.test.comparators[0]).split(".")[-1]
         branches[kind] = st.body
-        if len(st.orelse) == 1 and isinstance(st.orelse[0], ast.If) and norm(st.orelse[0].test.left) == "dim_type":
+        if len(st.orelse) == 1 and isinstance(st.orelse[0], ast.If) and isinstance(st.orelse[0].test, ast.Compare) and norm(st.orelse[0].test.left) == "dim_type":
             st = st.orelse[0]
         else:
             if st.orelse:
